@@ -44,8 +44,13 @@ PROPS = {
                      "relative 1e-9 (observed <= 3e-16). In the single-level class the code's guessed step 0.001 is the grid step; the "
                      "energy unit is then 0.001*Q/d (not a binary fraction) and the threshold is 0. Named exclusions: NoTie (no level of "
                      "the extended grid coincides with the mean energy of a band group: floating ceil of an integer-valued quotient) and "
-                     "NoLevelInsideGroup (no level inside the energy span of a group of several bands: at which energy inside its span a "
-                     "group counts as occupied is not demanded; the code uses the mean). select_bands with fder=0 is refused by the code "
+                     "NoLevelInsideGroup for the EXACT values only (no level inside the energy span of a group of several bands: at which energy "
+                     "inside its span a group counts as occupied is not demanded; the code uses the mean). Inputs with a level inside a group "
+                     "(model runs c13_in1 / c13_in2 with InsideMode=inside, about half of the records) are bound by representation-free "
+                     "clauses instead: sea between 'groups whose top band is <= level' and 'groups whose bottom band is <= level' (whole "
+                     "groups, every band at most once; TLC invariant SeaWithinBounds, record clause own_sea_within_bounds), CumDOS monotone / 0 "
+                     "below / num_wann above, fder=n = n-th central difference of the code's own fder=0 result on the extended grid, "
+                     "k-resolved sum; required class: lowest level of the scan inside a group with a band strictly below it. select_bands with fder=0 is refused by the code "
                      "(NotImplementedError) and not exercised; hole_like only flips the sign (no documented semantics) and is not "
                      "exercised; <= 4 bands when a band selection is used (weights are kept as integers/12). Kramers mode is exercised "
                      "on paired input with even and odd numbers of bands (odd: the highest band has no partner and forms or joins the last "
@@ -535,7 +540,7 @@ def integral(x):
 def part_records(rep, thorough, rng):
     recs = []
     nrec = 1500 if thorough else 180
-    stats = dict(kramers=0, kramers_odd=0, select=0, fder0=0, fder3=0, nonadditive=0, single_level=0, wide_group=0)
+    stats = dict(inside_group=0, lowest_level_inside_group_sea=0, kramers=0, kramers_odd=0, select=0, fder0=0, fder3=0, nonadditive=0, single_level=0, wide_group=0)
     tries = 0
     nonint = 0
     while len(recs) < nrec:
@@ -571,16 +576,28 @@ def part_records(rep, thorough, rng):
         if fder > 0 and rng.random() < 0.3:
             sel = sorted(rng.sample(range(nb), rng.randint(1, nb)))
         additive = rng.random() < 0.6
-        # named exclusions NoTie / NoLevelInsideGroup (checked again by TLC: clause admissible)
+        if not single and th > 0 and nb >= 2 and rng.random() < 0.35:
+            # targeted class: the lowest level of the (extended) scan inside a group, with a band of the group strictly below it
+            Ek = E[rng.randrange(nk)]
+            j = rng.randrange(nb - 1)
+            if not 0 < Ek[j + 1] - Ek[j] <= th and not kr:
+                Ek[j + 1:] = [x - Ek[j + 1] + Ek[j] + rng.randint(1, th) for x in Ek[j + 1:]]
+            if 0 < Ek[j + 1] - Ek[j] <= th:
+                grid["a"] = Q * Ek[j] + rng.randint(1, Q * (Ek[j + 1] - Ek[j])) + EXTRA[fder] * grid["d"]
+        # named exclusion NoTie; levels inside a group are kept as the class `inside` (both checked again by TLC: clause admissible)
         ex = EXTRA[fder]
         lv = [Fraction(grid["a"] + (i - ex) * grid["d"], Q) for i in range(grid["n"] + 2 * ex)]
-        bad_level = wide = False
+        tie = wide = inside = lowin = False
         for Ek in E:
             for a, b in py_borders(Ek, th, kr):
-                if Fraction(sum(Ek[a:b]), b - a) in lv or (b - a > 1 and any(Ek[a] <= x <= Ek[b - 1] for x in lv)):
-                    bad_level = True
+                if Fraction(sum(Ek[a:b]), b - a) in lv:
+                    tie = True
+                if b - a > 1 and any(Ek[a] <= x <= Ek[b - 1] for x in lv):
+                    inside = True
+                if Ek[a] < lv[0] <= Ek[b - 1]:
+                    lowin = True
                 wide = wide or Ek[b - 1] > Ek[a]
-        if bad_level:
+        if tie:
             continue
         inputs = dict(E=E, values=V, th=th, kramers=kr, grid=grid, fder=fder, select_bands=sel, unit=unit_of(grid))
         outs = {}
@@ -599,12 +616,27 @@ def part_records(rep, thorough, rng):
                 rep.violation(f"StaticCalculator:fder{fder}:nonintegral", dict(inputs, k_resolved=kres, got=got.tolist(), numerators=N.tolist()))
                 bad = True
             outs[kres] = Ni
+        seaK = [[] for _ in E]
+        if not bad and sel is None:
+            # the code's own Fermi sea on the extended grid (k-resolved): numerators in 1/SELUNIT
+            if fder == 0:
+                seaK = outs[True]
+            else:
+                ok, sea = call(rep, "StaticCalculator:" + ("additive" if additive else "nonadditive"), dict(inputs, k_resolved=True, fder=0, extended_grid=ex),
+                               run_synth, E, V, th, kr, grid, 0, None, True, "additive" if additive else "nonadditive", ext=ex)
+                seaK = integral(sea * SELUNIT) if ok and sea.ndim == 2 else None
+                if seaK is None:
+                    if ok:
+                        rep.violation("StaticCalculator:fder0:nonintegral", dict(inputs, fder=0, extended_grid=ex, got=sea.tolist()))
+                    bad = True
         if bad:
             if nonint > 200:
                 break           # a systematic deviation: the violations are recorded, TLC validation of the rest adds nothing
             continue
         recs.append(dict(E=E, V=V, th=th, kr=kr, grid=grid, fder=fder, selon=sel is not None, sel=sel or [], additive=additive,
-                         outK=outs[True], outU=outs[False][0]))
+                         outK=outs[True], outU=outs[False][0], inside=inside, seaK=seaK))
+        stats["inside_group"] += inside
+        stats["lowest_level_inside_group_sea"] += lowin and sel is None
         stats["kramers"] += kr
         stats["kramers_odd"] += kr and nb % 2 == 1
         stats["select"] += sel is not None
@@ -628,7 +660,8 @@ def part_records(rep, thorough, rng):
         r = recs[i]
         if "admissible" in clauses:
             raise MachineryError(f"the harness recorded an inadmissible input: {r}")
-        rep.violation(f"StaticCalculator:fder{r['fder']}:recorded" + (":select_bands" if r["selon"] else "") + (":single_level" if r["grid"]["n"] == 1 else ""),
+        rep.violation(f"StaticCalculator:fder{r['fder']}:recorded" + (":select_bands" if r["selon"] else "") + (":single_level" if r["grid"]["n"] == 1 else "") +
+                      (":level_inside_group" if r["inside"] else ""),
                       dict(record=r, failing_clauses=clauses, unit=unit_of(r["grid"]),
                            note="out* = result * 12 * c_n * dEF^n * (nk if unresolved) in integer units"))
     rep.sample(recs[0])
@@ -717,7 +750,8 @@ def check(pid, tier):
              "use_factor off, real CumDOS/DOS/Identity), plus the relations between real results, plus seeded random recorded calls validated by "
              "TLC, plus the six relations of one real run; distinct by input tuple")
     rep.assume("energies, Fermi levels, values, cell volume and factor are exactly representable; no Fermi level of the extended grid equals a group "
-               "mean energy (NoTie) or lies inside the span of a group of several bands (NoLevelInsideGroup)")
+               "mean energy (NoTie); exact values are compared only where no level lies inside the span of a group of several bands (NoLevelInsideGroup), "
+               "elsewhere the representation-free clauses")
     t = [os.times()]
 
     def lap(name):
